@@ -237,16 +237,27 @@ func valueTables(c *engine.Ctx, id, vals, tree string) {
 		}
 	}
 	listCtor := map[string]string{}
-	ast.Inspect(ll.Decl.Body, func(n ast.Node) bool {
-		ifs, ok := n.(*ast.IfStmt)
-		if !ok {
-			return true
-		}
-		cond := types.ExprString(ifs.Cond)
+	selection := func(condE ast.Expr, body []ast.Stmt) {
+		cond := types.ExprString(condE)
 		if strings.HasPrefix(cond, "len(") && strings.HasSuffix(cond, ") > 0") {
 			lv := cond[len("len(") : len(cond)-len(") > 0")]
-			for _, ctor := range calledCtors(ifs.Body.List) {
+			for _, ctor := range calledCtors(body) {
 				listCtor[lv] = ctor
+			}
+		}
+	}
+	ast.Inspect(ll.Decl.Body, func(n ast.Node) bool {
+		switch x := n.(type) {
+		case *ast.IfStmt:
+			selection(x.Cond, x.Body.List)
+		case *ast.SwitchStmt:
+			// the same chain written as a tagless switch
+			if x.Tag == nil {
+				for _, cl := range x.Body.List {
+					if cc, ok := cl.(*ast.CaseClause); ok && len(cc.List) == 1 {
+						selection(cc.List[0], cc.Body)
+					}
+				}
 			}
 		}
 		return true
